@@ -74,3 +74,453 @@ def header_writer_rules(prog, chk, pid):
             ok2 = hdr_ok and _self_attr(key, "session_key")
             why2 = "body offset is %s (documented: length of everything emitted before the body) / key %s" % (show(off, 4), show(key, 3))
         chk.require(ok2, P("bec2-body-offset"), fi.qualname, "bf3file.to_binary(len(header), self.session_key)", where, "the BF3 body is serialised with start offset = header length and the file's session key", why2)
+
+
+# ===================================================================================== auth blocks: pack <-> unpack
+from bfsa.layout import builtin_call
+from bfsa.length import lin, lin_eq, len_key
+from bfsa.guard import dominates
+from rules.bf3 import find_guards
+
+OPAQUE = {"cmac", "create_AES128", "hex2bin", "crc8404B", "select_encryptor", "create_public_ecc_key_from_raw_fmt", "generate_private_ecc_key", "create_public_ecc_key_from_der_fmt"}
+
+
+def pol_blocks(ex, fi, depth):
+    if fi.name in OPAQUE:
+        return False
+    if fi.name in ("encrypt", "decrypt") and depth > 1:
+        return False
+    return fi.module.name.startswith("bec2format") and depth < 10
+
+
+def _run(prog, qual, self_cls=None, policy=pol_blocks):
+    fi = prog.func(qual)
+    ex = Exec(prog, policy=policy)
+    res = ex.run(fi, self_cls=self_cls)
+    return fi, ex, res
+
+
+def _is_param(t, name) -> bool:
+    t = unsnap(t)
+    return t.op == "param" and t.args[0] == name
+
+
+def _enc_call(res, name):
+    """the single <selected encryptor>.encrypt/decrypt(...) event at top level"""
+    evs = [e for e in res.events if e.kind == "mcall" and e.d["name"] == name and len(e.stack) == 1]
+    return evs[0] if len(evs) == 1 else None
+
+
+def _selected(t: Term, cls_name: str) -> bool:
+    t = unsnap(t)
+    return is_call_named(t, "select_encryptor") and t.args[1] and unsnap(t.args[1][0]).op == "class" and unsnap(t.args[1][0]).args[0].endswith("." + cls_name)
+
+
+def block_rules(prog, chk, pid, want=None):
+    P = lambda s: "%s.%s" % (pid, s)
+    W = lambda s: want is None or s in want
+    try:
+        key_size = prog.fold_class_attr(prog.cls("bec2format.crypto.AES128"), "KEY_SIZE")
+        block_size = prog.fold_class_attr(prog.cls("bec2format.crypto.AES128"), "BLOCK_SIZE")
+    except NotConst:
+        raise AnalysisError("AES128.KEY_SIZE/BLOCK_SIZE not constant")
+    # ------------------------------------------------------------ InitCustKey
+    if W("custkey"):
+        fi, ex, res = _run(prog, BEC2 + ".InitCustKeyAuthBlock.pack")
+        where = "%s:%d" % (fi.file, fi.lineno)
+        e = _enc_call(res, "encrypt")
+        ok, why = e is not None and unsnap(res.ret) is unsnap(e.d["result"]) and _selected(e.d["recv"], "InitCustKeyAuthBlock"), "pack does not return <selected CustKeyEncryptor>.encrypt(...)"
+        if ok:
+            segs = Writer(ex).flatten(e.d["args"][0])
+            ok = len(segs) == 2 and segs[0] == ("const", bytes(10)) and segs[1][0] == "opaque" and _is_param(segs[1][1], "session_key")
+            why = "wrapped plaintext is %s, documented 10-byte zero placeholder followed by the session key" % show_segs(segs, 3)
+        chk.require(ok, P("custkey-pack"), fi.qualname, "encrypt(Zeros10 + session_key)", where, "customer-key block wraps placeholder(10) || session key", why)
+        fi, ex, res = _run(prog, BEC2 + ".InitCustKeyAuthBlock.unpack")
+        where = "%s:%d" % (fi.file, fi.lineno)
+        d = _enc_call(res, "decrypt")
+        ret = unsnap(res.ret) if res.ret is not None else None
+        ok = d is not None and ret is not None and ret.op == "tuple" and len(ret.args[0]) == 2 and _selected(d.d["recv"], "InitCustKeyAuthBlock") and _is_param(d.d["args"][0], "raw")
+        why = "unpack does not decrypt its raw argument with the selected encryptor"
+        if ok:
+            k = unsnap(ret.args[0][1])
+            ok = k.op == "slice" and unsnap(k.args[0]) is unsnap(d.d["result"]) and is_const(k.args[1]) and cval(k.args[1]) == -key_size and k.args[2] is NONE and k.args[3] is NONE
+            why = "session key is taken as %s, documented the last %d bytes of the decrypted block" % (show(k, 4), key_size)
+            o = ex.obj(res.state, ret.args[0][0])
+            ok = ok and o is not None and o.cls is not None and o.cls.name == "InitCustKeyAuthBlock"
+        chk.require(ok, P("custkey-unpack"), fi.qualname, "decrypt(raw)[-16:]", where, "inverse of pack: the session key is the last KEY_SIZE bytes (the segment pack appends last)", why)
+    # ------------------------------------------------------------ Update
+    if W("update"):
+        fi, ex, res = _run(prog, BEC2 + ".UpdateAuthBlock.pack")
+        where = "%s:%d" % (fi.file, fi.lineno)
+        e = _enc_call(res, "encrypt")
+        ok, why = e is not None and unsnap(res.ret) is unsnap(e.d["result"]) and _selected(e.d["recv"], "UpdateAuthBlock"), "pack does not return <selected encryptor>.encrypt(...)"
+        if ok:
+            segs = Writer(ex).flatten(e.d["args"][0])
+            ok = len(segs) == 2 and segs[0][0] == "opaque" and _is_param(segs[0][1], "session_key") and segs[1][0] == "int" and segs[1][1] == 1 and _self_attr(segs[1][2], "version")
+            why = "wrapped plaintext is %s, documented session key followed by the 1-byte version" % show_segs(segs, 3)
+        if ok:
+            sel = unsnap(e.d["recv"])
+            fb = sel.args[1][2] if len(sel.args[1]) > 2 else dict(sel.args[2]).get("fallback_encryptor")
+            o = ex.obj(res.state, fb) if fb is not None else None
+            ok = o is not None and o.cls is not None and o.cls.name == "ConfigSecurityCodeEncryptor" and _self_attr(o.attrs.get("config_security_code", NONE), "config_security_code")
+            why = "default encryptor is not ConfigSecurityCodeEncryptor(self.config_security_code)"
+        chk.require(ok, P("update-pack"), fi.qualname, "encrypt(session_key + U8(version)) under the security code", where, "update block wraps session key || version with the security-code encryptor", why)
+        fi, ex, res = _run(prog, BEC2 + ".UpdateAuthBlock.unpack")
+        where = "%s:%d" % (fi.file, fi.lineno)
+        d = _enc_call(res, "decrypt")
+        rds = [r for r in extract_readers(ex, res.events).values() if r.raw is not None]
+        ret = unsnap(res.ret) if res.ret is not None else None
+        ok = d is not None and len(rds) == 1 and unsnap(rds[0].raw) is unsnap(d.d["result"]) and ret is not None and ret.op == "tuple" and len(ret.args[0]) == 2 and _is_param(d.d["args"][0], "raw")
+        why = "unpack does not parse decrypt(raw) through one reader"
+        if ok:
+            fl = rds[0].fields()
+            ok = len(fl) == 2 and is_const(fl[0].size) and cval(fl[0].size) == key_size and is_const(fl[1].size) and cval(fl[1].size) == 1 and bool(fl[1].int_views) and unsnap(ret.args[0][1]) is unsnap(fl[0].result)
+            why = "decrypted block is read as %s, documented B(16) key, U8 version" % show_reader(rds[0])
+            if ok:
+                o = ex.obj(res.state, ret.args[0][0])
+                ok = o is not None and o.cls is not None and o.cls.name == "UpdateAuthBlock" and any(unsnap(o.attrs.get("version", NONE)) is v for v in fl[1].int_views)
+                csc = unsnap(o.attrs.get("config_security_code", NONE)) if o is not None else NONE
+                ok = ok and csc.op == "attr" and csc.args[1] == "config_security_code" and unsnap(csc.args[0]) is unsnap(d.d["recv"])
+                why = "reconstructed block does not carry the version read and the decryptor's security code"
+        chk.require(ok, P("update-unpack"), fi.qualname, "read(16) -> key; read(1) -> version", where, "inverse of pack; version and security code reach the attributes pack reads", why)
+    # ------------------------------------------------------------ InitEcc
+    if W("ecc"):
+        fi, ex, res = _run(prog, BEC2 + ".InitEccAuthBlock.pack")
+        where = "%s:%d" % (fi.file, fi.lineno)
+        e = _enc_call(res, "encrypt")
+        ok, why = e is not None and _selected(e.d["recv"], "InitEccAuthBlock"), "pack does not use the selected ECC encryptor"
+        if ok:
+            segs = Writer(ex).flatten(res.ret)
+            ok = len(segs) == 2 and segs[0][0] == "int" and segs[0][1] == 1 and _self_attr(segs[0][2], "key_selector") and segs[1][0] == "opaque" and unsnap(segs[1][1]) is unsnap(e.d["result"]) and _is_param(e.d["args"][0], "session_key")
+            why = "block is %s, documented U8 key selector followed by encrypt(session_key)" % show_segs(segs, 3)
+        chk.require(ok, P("ecc-pack"), fi.qualname, "U8(key_selector) + encryptor.encrypt(session_key)", where, "ECC block = selector byte || ECIES wrapping of the session key", why)
+        fi, ex, res = _run(prog, BEC2 + ".InitEccAuthBlock.unpack")
+        where = "%s:%d" % (fi.file, fi.lineno)
+        d = _enc_call(res, "decrypt")
+        ret = unsnap(res.ret) if res.ret is not None else None
+        ok = d is not None and ret is not None and ret.op == "tuple" and len(ret.args[0]) == 2 and unsnap(ret.args[0][1]) is unsnap(d.d["result"])
+        why = "unpack does not return the decrypted session key"
+        if ok:
+            a = unsnap(d.d["args"][0])
+            ok = a.op == "slice" and _is_param(a.args[0], "raw") and is_const(a.args[1]) and cval(a.args[1]) == 1 and a.args[2] is NONE
+            o = ex.obj(res.state, ret.args[0][0])
+            ks = unsnap(o.attrs.get("key_selector", NONE)) if o is not None else NONE
+            ok = ok and ks.op == "sub" and _is_param(ks.args[0], "raw") and is_const(ks.args[1]) and cval(ks.args[1]) == 0
+            why = "unpack does not split raw into selector raw[0] and wrapped key raw[1:]"
+        chk.require(ok, P("ecc-unpack"), fi.qualname, "selector = raw[0]; key = decrypt(raw[1:])", where, "inverse of pack; selector reaches the attribute pack reads", why)
+
+
+def ecies_rules(prog, chk, pid):
+    """EccEncryptor.encrypt / EccDecryptor.decrypt: 04 || X||Y (64) || AES-CBC_k(session key), k = SHA-256(ECDH x)[:16]"""
+    P = lambda s: "%s.%s" % (pid, s)
+    fi, ex, res = _run(prog, BEC2 + ".EccEncryptor.encrypt")
+    where = "%s:%d" % (fi.file, fi.lineno)
+    segs = Writer(ex).flatten(res.ret)
+    ok = len(segs) == 3 and segs[0] == ("const", b"\x04") and segs[1][0] == "opaque" and segs[2][0] == "opaque"
+    why = "block is %s, documented 04 || raw public point || AES(session key)" % show_segs(segs, 3)
+    gen = [e for e in res.events if e.kind == "call" and e.d["callee"].name == "generate_private_ecc_key"]
+    if ok:
+        pub = meth_call(unsnap(segs[1][1]))
+        ok = len(gen) == 1 and bool(pub) and pub[1] == "to_raw_bin_fmt" and unsnap(pub[0]).op == "attr" and unsnap(pub[0]).args[1] == "public_key" and unsnap(unsnap(pub[0]).args[0]) is unsnap(gen[0].d["result"])
+        why = "emitted point is not the public key of the freshly generated ephemeral key"
+    if ok:
+        enc = meth_call(unsnap(segs[2][1]))
+        ok = bool(enc) and enc[1] == "encrypt" and len(enc[2]) == 1 and _is_param(enc[2][0], "plaintext") and _kdf_ok(unsnap(enc[0]), unsnap(gen[0].d["result"]), lambda t: _self_attr(t, "public_key"))
+        why = "AES key is not SHA-256(ephemeral.compute_dh_secret(self.public_key))[:16] with default IV"
+    chk.require(ok, P("ecies-encrypt"), fi.qualname, "04 || ephemeral.public_key.raw || AES_k(plaintext), k = sha256(dh(ephemeral, recipient))[:16]", where, "ECIES wrapping as documented", why)
+    rets = [e for e in res.events if e.kind == "return" and e.stack == (fi.qualname,)]
+    okg = len(gen) == 1 and all(dominates(gen[0], r) for r in rets)
+    stores = [e for e in res.events if e.kind in ("setattr", "gstore", "clsstore") and len(e.stack) == 1]
+    chk.require(okg and not stores, P("ephemeral-per-call"), fi.qualname, "generate_private_ecc_key() on every path, result not stored", where, "a new ephemeral key pair is generated by every encrypt call and kept in a local only", "ephemeral key is not generated on every path or is cached (%s)" % (stores[0].d.get("name") if stores else ""))
+    # ---- decrypt
+    fi, ex, res = _run(prog, BEC2 + ".EccDecryptor.decrypt")
+    where = "%s:%d" % (fi.file, fi.lineno)
+    rds = [r for r in extract_readers(ex, res.events).values() if r.raw is not None and _is_param(r.raw, "ciphertext")]
+    ok, why = len(rds) == 1, "ciphertext is not parsed through one reader"
+    if ok:
+        fl = rds[0].fields()
+        ok = len(fl) == 3 and [cval(f.size) if is_const(f.size) else None for f in fl] == [1, 64, 16]
+        why = "block is read as %s, documented B(1) B(64) B(16)" % show_reader(rds[0])
+    rets = [e for e in res.events if e.kind == "return" and e.stack == (fi.qualname,)]
+    if ok:
+        gs = find_guards(res.events, lambda op, a, b: op == "NotEq" and any(unsnap(x) is unsnap(fl[0].result) and is_const(y) and cval(y) == b"\x04" for x, y in ((a, b), (b, a))))
+        ok = bool(gs) and all(dominates(gs[0], r) for r in rets)
+        why = "a block whose point marker is not 0x04 is not rejected"
+    if ok:
+        pk = [e for e in res.events if e.kind == "call" and e.d["callee"].name == "create_public_ecc_key_from_raw_fmt"]
+        ok = len(pk) == 1 and unsnap(pk[0].d["args"][0]) is unsnap(fl[1].result)
+        why = "ephemeral public key is not built from the 64 bytes read"
+    if ok:
+        dec = meth_call(unsnap(res.ret))
+        ok = bool(dec) and dec[1] == "decrypt" and len(dec[2]) == 1 and unsnap(dec[2][0]) is unsnap(fl[2].result) and _kdf_ok(unsnap(dec[0]), None, lambda t: unsnap(t) is unsnap(pk[0].d["result"]), priv_pred=lambda t: _self_attr(t, "private_key"))
+        why = "AES key is not SHA-256(self.private_key.compute_dh_secret(ephemeral public key))[:16], or the decrypted field is not the 16 bytes read"
+    chk.require(ok, P("ecies-decrypt"), fi.qualname, "read 04, X||Y(64), C(16); k = sha256(dh(private, ephemeral))[:16]; AES_k^-1(C)", where, "inverse of the ECIES wrapping with roles swapped", why)
+
+
+def _kdf_ok(cipher: Term, priv: Optional[Term], pub_pred, priv_pred=None) -> bool:
+    """cipher == create_AES128(sha256(<priv>.compute_dh_secret(<pub>)).digest()[:16])  (iv default)"""
+    if not is_call_named(cipher, "create_AES128") or len(cipher.args[1]) != 1 or cipher.args[2]:
+        return False
+    k = unsnap(cipher.args[1][0])
+    if not (k.op == "slice" and k.args[1] is NONE and is_const(k.args[2]) and cval(k.args[2]) == 16 and k.args[3] is NONE):
+        return False
+    d = meth_call(unsnap(k.args[0]))
+    if not (d and d[1] == "digest" and not d[2]):
+        return False
+    h = unsnap(d[0])
+    if not (h.op == "call" and isinstance(h.args[0], Term) and h.args[0].op == "ext" and h.args[0].args[0] == "hashlib.sha256" and len(h.args[1]) == 1):
+        return False
+    dh = meth_call(unsnap(h.args[1][0]))
+    if not (dh and dh[1] == "compute_dh_secret" and len(dh[2]) == 1 and pub_pred(dh[2][0])):
+        return False
+    if priv is not None and unsnap(dh[0]) is not priv:
+        return False
+    if priv_pred is not None and not priv_pred(dh[0]):
+        return False
+    return True
+
+
+# ===================================================================================== header reader / key flow (C02, C07)
+def pol_read(ex, fi, depth):
+    if fi.name in ("cmac", "create_AES128", "hex2bin", "from_binary", "parse_bf3_file"):
+        return False
+    return fi.module.name.startswith("bec2format") and depth < 10
+
+
+def header_reader_rules(prog, chk, pid):
+    P = lambda s: "%s.%s" % (pid, s)
+    fi, ex, res = _run(prog, BEC2 + ".Bec2File.read_file", policy=pol_read)
+    where = "%s:%d" % (fi.file, fi.lineno)
+    rds = [r for r in extract_readers(ex, res.events).values() if r.fields()]
+    rets = [e for e in res.events if e.kind == "return" and e.stack == (fi.qualname,)]
+    if len(rds) != 1:
+        raise AnalysisError("Bec2File.read_file: cannot identify the file-level reader (%d candidates)" % len(rds))
+    rd = rds[0]
+    items = [x for x in rd.items if not isinstance(x, RTell)]
+    sig = bytes.fromhex(SPEC["bec2_signature_hex"])
+    ok = len(items) == 2 and isinstance(items[0], RField) and isinstance(items[1], RLoop)
+    why = "header is read as %s; documented B(5) signature then {U8 tag, U8 len, value}* until 00 00" % show_reader(rd)
+    tagf = lenf = valf = None
+    if ok:
+        sf = items[0]
+        gs = find_guards(res.events, lambda op, a, b: op == "NotEq" and any(unsnap(x) is unsnap(sf.result) and is_const(y) and cval(y) == sig for x, y in ((a, b), (b, a))))
+        ok = is_const(sf.size) and cval(sf.size) == len(sig) and bool(gs) and all(dominates(gs[0], r) for r in rets)
+        why = "a wrong BEC2 signature is not rejected on every accepting path"
+        chk.require(ok, P("bec2-signature-guard"), fi.qualname, "read(5) != b'BEC2\\0' -> raise", gs[0].where if gs else where, "BEC2 signature is compared and enforced", why)
+        body = [x for x in items[1].items if isinstance(x, RField)]
+        lr = ex.loops[items[1].lid]
+        ok = len(body) == 3 and all(is_const(body[i].size) and cval(body[i].size) == 1 and body[i].int_views for i in (0, 1))
+        why = "auth block record is read as %s" % show_reader(rd)
+        if ok:
+            tagf, lenf, valf = body
+            ok = any(unsnap(valf.size) is v for v in lenf.int_views)
+            why = "value is not read with the length byte just read"
+        if ok:
+            # exit: exactly when tag == 0 and len == 0 (break guard), after the (empty) value was read
+            brk = [g for g in res.events if g.kind == "guard" and g.d.get("term") == "break" and any(f[0] == "loop" and f[1] == items[1].lid for f in g.ctx)]
+            ok = len(brk) == 1 and len(lr.breaks) == 1
+            if ok:
+                r = raise_rel(brk[0])
+                want_atoms = 0
+                if r[0] == "and" and len(r[1]) == 2:
+                    for a in r[1]:
+                        if a[0] == "rel" and a[1] == "Eq":
+                            for x, y in ((a[2], a[3]), (a[3], a[2])):
+                                if is_const(y) and cval(y) == 0 and not isinstance(cval(y), bool) and (any(x is v for v in tagf.int_views) or any(x is v for v in lenf.int_views)):
+                                    want_atoms += 1
+                ok = want_atoms == 2
+            why = "header loop does not stop exactly at the 00 00 terminator"
+    chk.require(ok, P("header-grammar"), fi.qualname, show_reader(rd), where, "BEC2 header is parsed as TLV records (U8 tag, U8 len, value[len]) until tag = len = 0", why)
+    return (fi, ex, res, rd, tagf, lenf, valf) if ok else None
+
+
+def key_flow_rules(prog, chk, pid, hdr=None):
+    """C07: common-key guard, unknown-block identity, key passed on to the body parser; C02: no key -> error"""
+    P = lambda s: "%s.%s" % (pid, s)
+    if hdr is None:
+        return
+    fi, ex, res, rd, tagf, lenf, valf = hdr
+    where = "%s:%d" % (fi.file, fi.lineno)
+    ev = res.events
+    # dispatch: AUTH_BLOCK_CLS_MAP[tag].unpack(value, ext_encryptors)
+    unp = [e for e in ev if e.kind == "dyncall" and meth_call(unsnap(e.d["result"])) is None and unsnap(e.d["fn"]).op == "attr" and unsnap(e.d["fn"]).args[1] == "unpack"]
+    if not unp:
+        unp = [e for e in ev if e.kind in ("dyncall", "mcall") and (e.d.get("name") == "unpack" or (e.kind == "dyncall" and unsnap(e.d["fn"]).op == "attr" and unsnap(e.d["fn"]).args[1] == "unpack"))]
+    ok = len(unp) == 1
+    why = "no single dispatch <block class for tag>.unpack(value, ext_encryptors)"
+    sess = None
+    if ok:
+        u = unp[0]
+        recv = unsnap(u.d["fn"]).args[0] if u.kind == "dyncall" else u.d["recv"]
+        recv = unsnap(recv)
+        ok = recv.op == "sub" and unsnap(recv.args[0]).op == "static" and unsnap(recv.args[0]).args[0].endswith("AUTH_BLOCK_CLS_MAP") and any(unsnap(recv.args[1]) is v for v in tagf.int_views)
+        a = u.d["args"]
+        ok = ok and len(a) == 2 and unsnap(a[0]) is unsnap(valf.result) and _is_param(a[1], "ext_encryptors")
+        why = "block class is not selected by the tag read, or unpack does not receive the value read and the caller's decryptors"
+        table = ex.statics.get(unsnap(recv.args[0]).args[0]) if ok else None
+        if ok:
+            names = {k: v.args[0].split(".")[-1] for k, v in table.items()}
+            ok = names == {1: "InitCustKeyAuthBlock", 3: "InitEccAuthBlock", 2: "UpdateAuthBlock"}
+            why = "tag -> block class table is %s" % names
+    chk.require(ok, P("block-dispatch"), fi.qualname, "AUTH_BLOCK_CLS_MAP[tag].unpack(value, ext_encryptors)", unp[0].where if unp else where, "each block is unpacked by the class registered for its tag (01 customer key, 02 update, 03 ECC)", why)
+    if not ok:
+        return
+    result = unsnap(unp[0].d["result"])
+    key_t = [t for t in (mk("sub", result, C(1)),)]
+    # ---- disagreement guard
+    def pred(op, a, b):
+        return op == "NotEq" and any(unsnap(x) is key_t[0] and unsnap(y).op == "loopvar" for x, y in ((a, b), (b, a)))
+
+    gs = find_guards(ev, pred, allow_extra=True)
+    okg = False
+    whyg = "no guard raises when a block unwraps to a key different from the one seen so far"
+    for g in gs:
+        common = None
+        for d in disjuncts(raise_rel(g)):
+            for a in (d[1] if d[0] == "and" else [d]):
+                if a[0] == "rel" and a[1] == "NotEq":
+                    for x, y in ((a[2], a[3]), (a[3], a[2])):
+                        if unsnap(x) is key_t[0] and unsnap(y).op == "loopvar":
+                            common = unsnap(y)
+        if common is None:
+            continue
+        extras = g.d.get("extra", [])
+        ok_extra = all(x[0] == "rel" and x[1] == "IsNot" and ((unsnap(x[2]) is common and x[3] is NONE) or (unsnap(x[3]) is common and x[2] is NONE)) for x in extras)
+        lr = ex.loops[common.args[0]]
+        nxt = lr.next.get(common.args[1])
+        init = lr.init.get(common.args[1])
+        # the carried key is updated from the unwrapped key (after the comparison) and starts as None
+        upd_ok = nxt is not None and any(unsnap(t) is key_t[0] for t in __import__("bfsa.terms", fromlist=["subterms"]).subterms(nxt)) and init is NONE
+        # frames: only "unwrapped key is not None" may condition the guard
+        conds = [f for f in g.ctx if f[0] == "if" and not any(l.cond is f[1] for l in ex.loops.values())]
+        cond_ok = all(_is_not_none_test(f, key_t[0]) or _is_not_none_test(f, common) for f in conds)
+        if ok_extra and upd_ok and cond_ok:
+            okg = True
+            break
+        whyg = "key-disagreement guard is weakened (extra conditions, or the carried key is not updated from the unwrapped key)"
+    chk.require(okg, P("same-key-guard"), fi.qualname, "session_key != common_session_key (and common is not None) -> raise", gs[0].where if gs else where, "a header whose blocks unwrap to different session keys is rejected, for every pair of blocks", whyg)
+    # ---- unknown blocks keep tag and bytes
+    news = [e for e in ev if e.kind == "new" and e.d["cls"].name == "UnknownAuthBlock"]
+    oku = len(news) == 1
+    if oku:
+        a = news[0].d["args"]
+        oku = len(a) == 2 and any(unsnap(a[0]) is v for v in tagf.int_views) and unsnap(a[1]) is unsnap(valf.result)
+        oku = oku and any(f[0] == "except" and "KeyError" in f[3] for f in news[0].ctx)
+    chk.require(oku, P("unknown-block-identity"), fi.qualname, "except KeyError: UnknownAuthBlock(tag, value)", news[0].where if news else where, "a block that cannot be opened is kept with exactly the tag and bytes read", "blocks without decryptor are not preserved as (tag read, bytes read)")
+    fu = prog.method(BEC2 + ".UnknownAuthBlock", "pack")
+    exu = Exec(prog, policy=lambda e, f, d: False)
+    ru = exu.run(fu)
+    chk.require(ru.ret is not None and _self_attr(ru.ret, "binary_value"), P("unknown-block-identity"), fu.qualname, "return self.binary_value", "%s:%d" % (fu.file, fu.lineno), "re-packing an unknown block emits its original bytes", "UnknownAuthBlock.pack does not return the stored bytes")
+    fi2 = prog.method(BEC2 + ".UnknownAuthBlock", "__init__")
+    exi = Exec(prog, policy=lambda e, f, d: f.module.name.startswith("bec2format"))
+    ri = exi.run(fi2)
+    sets = {e.d["name"]: unsnap(e.d["value"]) for e in ri.events if e.kind == "setattr"}
+    tag = sets.get("tag")
+    tag_ok = tag is not None and (_is_param(tag, "tag") or (tag.op == "or" and is_const(tag.args[0][0]) is False and _is_param(tag.args[0][-1], "tag")) or (tag.op == "or" and _is_param(tag.args[0][-1], "tag")))
+    chk.require(tag_ok and "binary_value" in sets and _is_param(sets["binary_value"], "binary_value"), P("unknown-block-identity"), fi2.qualname, "self.tag = tag; self.binary_value = binary_value", "%s:%d" % (fi2.file, fi2.lineno), "constructor keeps tag and bytes unchanged", "UnknownAuthBlock does not keep its tag / bytes unchanged")
+    # ---- no key -> error ; key and check_cmac passed on
+    fb = [e for e in ev if e.kind == "call" and e.d["callee"].name == "from_binary"]
+    okn = len(fb) == 1
+    whyn = "body is not parsed by exactly one Bf3File.from_binary call"
+    if okn:
+        a = [x for x in fb[0].d["args"] if unsnap(x).op != "class"]
+        kw = fb[0].d["kwargs"]
+        key = a[3] if len(a) > 3 else kw.get("session_key")
+        cc = a[2] if len(a) > 2 else kw.get("check_cmac")
+        key = unsnap(key) if key is not None else None
+        gs = find_guards(ev, lambda op, x, y: op == "Is" and ((unsnap(x) is key and y is NONE) or (unsnap(y) is key and x is NONE)))
+        okn = key is not None and key.op in ("loopvar", "loopexit", "phi") and bool(gs) and dominates(gs[0], fb[0]) and cc is not None and _is_param(cc, "check_cmac") and unsnap(a[0]) is rd.term
+        whyn = "body parser does not receive the unwrapped common key / check_cmac, or a header without decryptable block is not rejected"
+    chk.require(okn, P("key-to-body"), fi.qualname, "session_key is None -> raise; from_binary(raw_rdr, comments, check_cmac, session_key)", fb[0].where if fb else where, "the BF3 body is verified and decrypted with the key the auth blocks unwrap to; no decryptable block is an error", whyn)
+    if okn:
+        news = [e for e in ev if e.kind == "new" and e.d["cls"].name == "Bec2File" and len(e.stack) == 1]
+        okr = len(news) == 1 and len(news[0].d["args"]) == 3 and unsnap(news[0].d["args"][0]) is unsnap(fb[0].d["result"]) and unsnap(news[0].d["args"][2]) is key and unsnap(news[0].d["args"][1]).op == "ref"
+        chk.require(okr, P("key-to-body"), fi.qualname, "Bec2File(body, auth_blocks, session_key)", news[0].where if news else where, "the returned object carries the parsed body, the blocks read and the unwrapped key", "returned object is not built from (body, blocks read, unwrapped key)")
+
+
+def _is_not_none_test(frame, key: Term) -> bool:
+    c, pol = frame[1], frame[2]
+    r = rel(c, pol)
+    return r[0] == "rel" and r[1] == "IsNot" and ((unsnap(r[2]) is key and r[3] is NONE) or (unsnap(r[3]) is key and r[2] is NONE))
+
+
+def single_key_source_rules(prog, chk, pid):
+    """C07.R1/R2/R5"""
+    import ast as _ast
+
+    P = lambda s: "%s.%s" % (pid, s)
+    # every pack receives self.session_key
+    fi = prog.func(BEC2 + ".Bec2File.pack_auth_blocks")
+    ex = Exec(prog, policy=lambda e, f, d: False)
+    res = ex.run(fi)
+    packs = [e for e in res.events if e.kind == "mcall" and e.d["name"] == "pack"]
+    ok = len(packs) == 1 and len(packs[0].d["args"]) >= 1 and _self_attr(packs[0].d["args"][0], "session_key") and any(f[0] == "loop" for f in packs[0].ctx)
+    chk.require(ok, P("one-key-for-all-blocks"), fi.qualname, "auth_block.pack(self.session_key, ext_encryptors) for every block", "%s:%d" % (fi.file, fi.lineno), "every block wraps the file's session key attribute", "some block is packed with a key other than self.session_key")
+    # no store to session_key outside __init__
+    cls = prog.cls(BEC2 + ".Bec2File")
+    bad = []
+    for name, m in cls.methods.items():
+        if name == "__init__":
+            continue
+        for n in _ast.walk(m.node):
+            if isinstance(n, _ast.Attribute) and n.attr == "session_key" and isinstance(n.ctx, (_ast.Store, _ast.Del)):
+                bad.append("%s:%d" % (m.file, n.lineno))
+    chk.require(not bad, P("one-key-for-all-blocks"), cls.qualname, "session_key assigned only in __init__", bad[0] if bad else "", "the key cannot change between the blocks and the body", "session_key is reassigned outside __init__")
+    # each pack passes its session_key parameter into encrypt
+    for cname in ("InitCustKeyAuthBlock", "InitEccAuthBlock", "UpdateAuthBlock"):
+        f2, ex2, r2 = _run(prog, BEC2 + ".%s.pack" % cname)
+        e = _enc_call(r2, "encrypt")
+        from bfsa.terms import subterms
+
+        okp = e is not None and any(_is_param(t, "session_key") for t in subterms(e.d["args"][0])) and not [x for x in r2.events if x.kind == "extcall" and x.d["name"] in ("os.urandom",)]
+        chk.require(okp, P("pack-wraps-given-key"), f2.qualname, "encryptor.encrypt(... session_key ...)", "%s:%d" % (f2.file, f2.lineno), "the key handed to pack is what gets wrapped", "pack does not wrap the session key it was given")
+    # freshness: random_bytes(16) evaluated per instance inside __init__
+    fi = prog.method(BEC2 + ".Bec2File", "__init__")
+    ex = Exec(prog, policy=lambda e, f, d: False)
+    res = ex.run(fi)
+    where = "%s:%d" % (fi.file, fi.lineno)
+    sets = [e for e in res.events if e.kind == "setattr" and e.d["name"] == "session_key"]
+    ok = len(sets) == 1
+    why = "session_key is not assigned exactly once in __init__"
+    if ok:
+        v = unsnap(sets[0].d["value"])
+        ok = v.op == "or" and len(v.args[0]) == 2 and _is_param(v.args[0][0], "session_key") and is_call_named(unsnap(v.args[0][1]), "random_bytes") and [cval(x) for x in unsnap(v.args[0][1]).args[1] if is_const(x)] == [16]
+        why = "session key is %s, documented `given key or random_bytes(16)` evaluated per instance" % show(v, 4)
+        dfl = fi.node.args.defaults
+        ok = ok and all(prog.try_fold(fi.module, d, default="<nonconst>") != "<nonconst>" for d in dfl)
+    chk.require(ok, P("fresh-key-per-file"), fi.qualname, "self.session_key = session_key or random_bytes(16)", where, "without a given key a 16-byte random key is drawn inside the constructor body (per instance; no default-argument or class-level caching)", why)
+    # registered RNG: os.urandom(num_bytes), nothing cached
+    ex0 = Exec(prog)
+    rb = ex0.global_overrides.get(("bec2format.crypto", "__random_bytes"))
+    ok = rb is not None and rb.op == "func"
+    why = "no random source is registered by the plug-in"
+    if ok:
+        frb = ex0.fi_of(rb)
+        exr = Exec(prog, policy=lambda e, f, d: False)
+        rr = exr.run(frb)
+        v = unsnap(rr.ret) if rr.ret is not None else None
+        ok = v is not None and v.op == "call" and isinstance(v.args[0], Term) and v.args[0].op == "ext" and v.args[0].args[0] == "os.urandom" and len(v.args[1]) == 1 and _is_param(v.args[1][0], frb.params[0])
+        ok = ok and not [e for e in rr.events if e.kind in ("gstore", "setattr", "clsstore", "setitem")]
+        why = "registered random_bytes is %s, expected os.urandom(num_bytes) without caching" % (show(v, 4) if v is not None else None)
+        # crypto.random_bytes forwards to the registered function
+        fc = prog.func("bec2format.crypto.random_bytes")
+        exc = Exec(prog, policy=lambda e, f, d: False)
+        rc = exc.run(fc)
+        calls = [e for e in rc.events if e.kind == "call" and e.d["callee"] is frb]
+        ok = ok and len(calls) == 1 and unsnap(rc.ret) is unsnap(calls[0].d["result"]) and _is_param(calls[0].d["args"][0], fc.params[0])
+    chk.require(ok, P("fresh-key-per-file"), "register_crypto_plugin.random_bytes", "os.urandom(num_bytes), no caching", "", "the registered RNG returns fresh OS randomness of the requested length on every call", why)
+    # registered key generator: SigningKey.generate(curve=NIST256p) per call
+    gk = ex0.global_overrides.get(("bec2format.crypto", "__PrivateEccKey"))
+    ok = gk is not None and gk.op == "class"
+    why = "no private-key class is registered"
+    if ok:
+        c = prog.cls(gk.args[0])
+        g = c.lookup("generate")
+        ok = g is not None and hasattr(g[1], "node")
+        if ok:
+            exg = Exec(prog, policy=lambda e, f, d: False)
+            rg = exg.run(g[1])
+            gens = [e for e in rg.events if e.kind == "call" and e.d["callee"].name == "generate"]
+            ok = len(gens) == 1 and "entropy" not in gens[0].d["kwargs"] and len([a for a in gens[0].d["args"] if unsnap(a).op != "class"]) == 0 and not [e for e in rg.events if e.kind in ("gstore", "clsstore", "setitem")]
+            why = "generate() does not create a new SigningKey from OS entropy on every call (custom entropy / caching)"
+    chk.require(ok, P("ephemeral-fresh"), "register_crypto_plugin.PrivateEccKeyProxy.generate", "SigningKey.generate(curve=CURVE) per call, default entropy", "", "every ephemeral key comes from a new SigningKey.generate call with the library's default entropy source", why)
